@@ -22,6 +22,26 @@ type ServiceDiscovery interface {
 	Close()
 }
 
+// notifyWatcher hands the newest server list to a watcher without blocking the publisher and
+// without reordering updates: if the watcher's queue is full the oldest pending list is dropped,
+// since only the newest list matters.
+func notifyWatcher(ch chan []*KVPair, pairs []*KVPair) {
+	defer func() {
+		recover() // the watcher may have been closed
+	}()
+	for {
+		select {
+		case ch <- pairs:
+			return
+		default:
+		}
+		select {
+		case <-ch:
+		default:
+		}
+	}
+}
+
 type cachedServiceDiscovery struct {
 	threshold  int
 	cachedFile string
